@@ -246,6 +246,15 @@ func (f *File) loadSpans() {
 				}
 			case *schema.DropTable:
 				f.tableSpan(c.T).state |= SpanDropped
+			case *schema.RenameTable:
+				// The table keeps its life-span (and the one of its columns) under its new name.
+				from, to := f.tableSpan(c.From), f.tableSpan(c.To)
+				to.state = from.state
+				columns := make(map[string]ResourceSpan, len(from.columns))
+				for name, s := range from.columns {
+					columns[name] = s
+				}
+				to.columns = columns
 			case *schema.ModifyTable:
 				span := f.tableSpan(c.T)
 				for _, c1 := range c.Changes {
@@ -254,6 +263,10 @@ func (f *File) loadSpans() {
 						span.columns[c1.C.Name] = SpanAdded
 					case *schema.DropColumn:
 						span.columns[c1.C.Name] |= SpanDropped
+					case *schema.RenameColumn:
+						// The column keeps its life-span under its new name.
+						span.columns[c1.To.Name] = span.columns[c1.From.Name]
+						delete(span.columns, c1.From.Name)
 					case *schema.AddIndex:
 						span.indexes[c1.I.Name] = SpanAdded
 					case *schema.DropIndex:
